@@ -1,10 +1,19 @@
-"""C08 - putting back what was taken restores the tree; accessors read back writes (bounded only)."""
+"""C08 - putting back what was taken restores the tree; accessors read back writes."""
+from contracts import k_docstr
 from pyvc import native
 
 
 def run(rep, tier, seed):
+    # the docstring encoder is the inverse of CPython's string-literal decoder (finite over code points + bounded combos)
+    k_docstr.run(rep, 'C08', tier)
+    sec = native.run('k_docstr', 'bounded_combinations', {'tier': tier}, timeout=3600)
+    sec['native_entry'] = ('k_docstr', 'replay')
+    rep.bounded(sec)
     sec = native.run('b_edit', 'main', {'props': ['C08'], 'tier': tier, 'seed': seed,
                                         'ops': ['self', 'slice', 'accessors'], 'norm': False})
     sec['native_entry'] = ('b_edit', 'replay')
     rep.bounded(sec)
-    rep.remainder = 'unbounded strings / programs: nothing is proved for C08'
+    rep.trusted.append('CPython ast.parse as the decoder of string literals')
+    rep.remainder = ('the round-trip law of cut / put back and of own copy / source / AST replacement: bounded stand-in only '
+                     '(defined by the parser and by source manipulation outside the verifier\'s reach); line-comment '
+                     'accessor: bounded only')
